@@ -46,6 +46,15 @@ fn sparse(rr: usize, c: usize) -> Sparse<f64> {
     }
     Sparse::from_triplets(rr, c, &mut t)
 }
+/// a matrix of the given shape without any stored entry: from no triplets (route 0) or from empty compressed-column arrays
+fn empty_sparse(rr: usize, c: usize, route: usize) -> Sparse<f64> {
+    if route == 0 {
+        let mut t: Vec<(usize, usize, f64)> = vec![];
+        Sparse::from_triplets(rr, c, &mut t)
+    } else {
+        Sparse::from_vecs(rr, c, vec![], vec![], vec![0usize; c + 1])
+    }
+}
 fn skey(s: &Sparse<f64>) -> String {
     format!("{} {} {} {:?} {:?} {:?}", s.rows, s.cols, s.nonzero, s.val, s.row_index, s.col_start)
 }
@@ -399,6 +408,104 @@ fn tridiagonal_entries(out: &mut Vec<(String, String)>) {
     }
 }
 
+/// The binary entries once more on operands that are ALL ZERO (a zero vector, a zero matrix, a band / tridiagonal matrix of zeros)
+/// and, for the f64 dot products, on operands holding inf / NaN: the answer to a conforming call may be known without looking at
+/// the other operand, a mismatch is refused all the same - and only mismatches are judged here (a zero matrix is singular:
+/// what the solvers do with conforming zero operands is not this property's business)
+fn zero_operand_entries(out: &mut Vec<(String, String)>) {
+    let zv = |n: usize| Vector::new(n, r(0));
+    for a in 0..=4usize {
+        for b in 0..=4usize {
+            if a == b {
+                continue;
+            }
+            let ar = format!("sizes {} {} (zero operands)", a, b);
+            for side in 0..3usize {
+                let setup = move || (if side != 1 { Vector::new(a, r(0)) } else { vecr(a, 0) }, if side != 0 { Vector::new(b, r(0)) } else { vecr(b, 100) });
+                let key = |s: &(Vector<Rat>, Vector<Rat>)| format!("{:?}|{:?}", s.0, s.1);
+                let ar = format!("{} side {}", ar, side);
+                verdict(out, "&Vector + &Vector (zero operand)", ar.clone(), true, true, probe(&setup, &key, &|s| { let _ = &s.0 + &s.1; }));
+                verdict(out, "Vector - Vector (zero operand)", ar.clone(), true, true, probe(&setup, &key, &|s| { let _ = s.0.clone() - s.1.clone(); }));
+                verdict(out, "Vector += Vector (zero operand)", ar.clone(), true, false, probe(&setup, &key, &|s| { let w = s.1.clone(); s.0 += w; }));
+                verdict(out, "Vector::dot (zero operand)", ar.clone(), true, true, probe(&setup, &key, &|s| { let _ = s.0.dot(&s.1); }));
+                let setupf = move || {
+                    let mut x = if side != 1 { Vector::new(a, 0.0f64) } else { vecf(a) };
+                    let mut y = if side != 0 { Vector::new(b, 0.0f64) } else { vecf(b) };
+                    if side == 2 {
+                        if a > 0 {
+                            x[0] = f64::INFINITY;
+                        }
+                        if b > 0 {
+                            y[b - 1] = f64::NAN;
+                        }
+                    }
+                    (x, y)
+                };
+                let keyf = |s: &(Vector<f64>, Vector<f64>)| format!("{:?}|{:?}", s.0, s.1);
+                verdict(out, "Vector::dot_f64 (zero / non-finite operand)", ar.clone(), true, true, probe(&setupf, &keyf, &|s| { let _ = s.0.dot_f64(&s.1); }));
+                verdict(out, "Vector<f64>::dot (zero / non-finite operand)", ar.clone(), true, true, probe(&setupf, &keyf, &|s| { let _ = s.0.dot(&s.1); }));
+            }
+        }
+    }
+    for r1 in 1..=3usize {
+        for c1 in 1..=3usize {
+            let zm = move || Matrix::new(r1, c1, r(0));
+            for b in 0..=4usize {
+                let keymv = |s: &(Matrix<Rat>, Vector<Rat>)| format!("{:?}#{}x{}|{:?}", s.0, s.0.rows(), s.0.cols(), s.1);
+                for side in 0..2usize {
+                    let setup = move || (if side == 0 { zm() } else { matr(r1, c1, 0) }, if side == 1 { Vector::new(b, r(0)) } else { vecr(b, 100) });
+                    let ar = format!("{}x{} with vector {} (zero operand, side {})", r1, c1, b, side);
+                    if b != c1 {
+                        verdict(out, "Matrix::multiply(&Vector) (zero operand)", ar.clone(), true, true, probe(&setup, &keymv, &|s| { let _ = s.0.multiply(&s.1); }));
+                        verdict(out, "&Matrix * &Vector (zero operand)", ar.clone(), true, true, probe(&setup, &keymv, &|s| { let _ = &s.0 * &s.1; }));
+                    }
+                    if r1 != b || r1 != c1 {
+                        verdict(out, "Matrix::solve_basic (zero operand)", ar.clone(), true, false, probe(&setup, &keymv, &|s| { let b = s.1.clone(); let _ = s.0.solve_basic(&b); }));
+                        verdict(out, "Matrix::solve_lu (zero operand)", ar.clone(), true, false, probe(&setup, &keymv, &|s| { let b = s.1.clone(); let _ = s.0.solve_lu(&b); }));
+                    }
+                }
+            }
+            for r2 in 1..=3usize {
+                for c2 in 1..=3usize {
+                    let keymm = |s: &(Matrix<Rat>, Matrix<Rat>)| format!("{:?}#{}x{}|{:?}#{}x{}", s.0, s.0.rows(), s.0.cols(), s.1, s.1.rows(), s.1.cols());
+                    for side in 0..2usize {
+                        let setup = move || (if side == 0 { zm() } else { matr(r1, c1, 0) }, if side == 1 { Matrix::new(r2, c2, r(0)) } else { matr(r2, c2, 100) });
+                        let ar = format!("{}x{} and {}x{} (zero operand, side {})", r1, c1, r2, c2, side);
+                        if c1 != r2 {
+                            verdict(out, "&Matrix * &Matrix (zero operand)", ar.clone(), true, true, probe(&setup, &keymm, &|s| { let _ = &s.0 * &s.1; }));
+                        }
+                        if (r1, c1) != (r2, c2) {
+                            verdict(out, "&Matrix + &Matrix (zero operand)", ar.clone(), true, true, probe(&setup, &keymm, &|s| { let _ = &s.0 + &s.1; }));
+                            verdict(out, "Matrix -= Matrix (zero operand)", ar.clone(), true, false, probe(&setup, &keymm, &|s| { let w = s.1.clone(); s.0 -= w; }));
+                        }
+                    }
+                }
+            }
+        }
+    }
+    for n1 in 1..=4usize {
+        for b in 0..=5usize {
+            if b == n1 {
+                continue;
+            }
+            for side in 0..2usize {
+                let setup = move || (if side == 0 { Banded::new(n1, 1.min(n1 - 1), 1.min(n1 - 1), r(0)) } else { band(n1, 1.min(n1 - 1), 1.min(n1 - 1), 0) }, if side == 1 { Vector::new(b, r(0)) } else { vecr(b, 100) });
+                let key = |s: &(Banded<Rat>, Vector<Rat>)| format!("{:?}|{:?}", s.0, s.1);
+                let ar = format!("order {} with vector {} (zero operand, side {})", n1, b, side);
+                verdict(out, "&Banded * &Vector (zero operand)", ar.clone(), true, true, probe(&setup, &key, &|s| { let _ = &s.0 * &s.1; }));
+                verdict(out, "Banded::solve (zero operand)", ar.clone(), true, true, probe(&setup, &key, &|s| { let _ = s.0.solve(&s.1); }));
+                if n1 >= 2 {
+                    let setupt = move || (if side == 0 { Tridiagonal::with_vecs(vec![r(0); n1 - 1], vec![r(0); n1], vec![r(0); n1 - 1]) } else { tri(n1, 0) }, if side == 1 { Vector::new(b, r(0)) } else { vecr(b, 100) });
+                    let keyt = |s: &(Tridiagonal<Rat>, Vector<Rat>)| format!("{}|{:?}", tkey(&s.0), s.1);
+                    verdict(out, "&Tridiagonal * &Vector (zero operand)", ar.clone(), true, true, probe(&setupt, &keyt, &|s| { let _ = &s.0 * &s.1; }));
+                    verdict(out, "Tridiagonal::solve (zero operand)", ar.clone(), true, true, probe(&setupt, &keyt, &|s| { let _ = s.0.solve(&s.1); }));
+                }
+            }
+        }
+    }
+    let _ = zv;
+}
+
 fn sparse_entries(out: &mut Vec<(String, String)>) {
     for rr in 1..=4usize {
         for c in 1..=4usize {
@@ -409,6 +516,34 @@ fn sparse_entries(out: &mut Vec<(String, String)>) {
                 let ar = format!("{}x{} with vector {}", rr, c, b);
                 verdict(out, "Sparse::multiply", ar.clone(), b != c, true, probe(&setup, &key, &|s| { let _ = s.0.multiply(&s.1); }));
                 verdict(out, "Sparse::transpose_multiply", ar.clone(), b != rr, true, probe(&setup, &key, &|s| { let _ = s.0.transpose_multiply(&s.1); }));
+                // a matrix without any stored entry (built from no triplets / from empty arrays), a vector of zeros, a vector holding
+                // inf: the product has nothing to add up, the sizes are checked all the same
+                for route in 0..2usize {
+                    for vk in 0..3usize {
+                        let setupe = || {
+                            let mut v = if vk == 1 { Vector::new(b, 0.0) } else { vecf(b) };
+                            if vk == 2 && b > 0 {
+                                v[0] = f64::INFINITY;
+                            }
+                            (empty_sparse(rr, c, route), v)
+                        };
+                        let ar = format!("{}x{} without stored entries (route {}) with vector {} kind {}", rr, c, route, b, vk);
+                        verdict(out, "Sparse::multiply (matrix without entries)", ar.clone(), b != c, true, probe(&setupe, &key, &|s| { let _ = s.0.multiply(&s.1); }));
+                        verdict(out, "Sparse::transpose_multiply (matrix without entries)", ar.clone(), b != rr, true, probe(&setupe, &key, &|s| { let _ = s.0.transpose_multiply(&s.1); }));
+                    }
+                }
+                {
+                    let setupz = || {
+                        let mut v = Vector::new(b, 0.0);
+                        if b > 1 {
+                            v[1] = f64::NAN;
+                        }
+                        (sparse(rr, c), v)
+                    };
+                    let ar = format!("{}x{} with a zero / NaN vector {}", rr, c, b);
+                    verdict(out, "Sparse::multiply (zero vector)", ar.clone(), b != c, true, probe(&setupz, &key, &|s| { let _ = s.0.multiply(&s.1); }));
+                    verdict(out, "Sparse::transpose_multiply (zero vector)", ar.clone(), b != rr, true, probe(&setupz, &key, &|s| { let _ = s.0.transpose_multiply(&s.1); }));
+                }
                 // iterative solvers: matrix must be square, b and x must have its size
                 for xs in 0..=5usize {
                     let setup3 = || (sparse(rr, c), vecf(b), vecf(xs));
@@ -430,6 +565,35 @@ fn sparse_entries(out: &mut Vec<(String, String)>) {
                     verdict(out, "Sparse::solve_bicg (b = 0, x = 0)", ar.clone(), bad, bad, probe(&setup0, &key3, &|s| { let bb = s.1.clone(); let _ = s.0.solve_bicg(&bb, &mut s.2, 2, 1e-8, 1); }));
                     verdict(out, "Sparse::solve_bicgstab (b = 0, x = 0)", ar.clone(), bad, bad, probe(&setup0, &key3, &|s| { let bb = s.1.clone(); let _ = s.0.solve_bicgstab(&bb, &mut s.2, 2, 1e-8); }));
                     verdict(out, "Sparse::solve_qmr (b = 0, x = 0)", ar.clone(), bad, bad, probe(&setup0, &key3, &|s| { let bb = s.1.clone(); let _ = s.0.solve_qmr(&bb, &mut s.2, 2, 1e-8); }));
+                    // the same entries on operands whose VALUES or STORED STRUCTURE invite an early exit: a right-hand side holding inf / NaN
+                    // / 1.5e308 (its norm is not finite), a guess holding inf, a matrix without any stored entry - a mismatch is refused
+                    // whatever the operands hold (an exit placed above the shape checks answers Err or a zero vector instead)
+                    if bad {
+                        for sv in 0..4usize {
+                            let special = |n: usize, which: usize| -> Vector<f64> {
+                                let mut v = vecf(n);
+                                if n > 0 {
+                                    v[n - 1] = [f64::INFINITY, f64::NAN, 1.5e308, f64::NEG_INFINITY][which];
+                                    if which == 2 {
+                                        v[0] = 1.5e308;
+                                    }
+                                }
+                                v
+                            };
+                            let setups = || (sparse(rr, c), special(b, sv), if sv == 3 { special(xs, 0) } else { vecf(xs) });
+                            let ar = format!("{}x{} b {} x {} special values #{}", rr, c, b, xs, sv);
+                            verdict(out, "Sparse::solve_cg (non-finite operands)", ar.clone(), bad, bad, probe(&setups, &key3, &|s| { let bb = s.1.clone(); let _ = s.0.solve_cg(&bb, &mut s.2, 2, 1e-8); }));
+                            verdict(out, "Sparse::solve_bicg (non-finite operands)", ar.clone(), bad, bad, probe(&setups, &key3, &|s| { let bb = s.1.clone(); let _ = s.0.solve_bicg(&bb, &mut s.2, 2, 1e-8, 1 + sv % 2); }));
+                            verdict(out, "Sparse::solve_bicgstab (non-finite operands)", ar.clone(), bad, bad, probe(&setups, &key3, &|s| { let bb = s.1.clone(); let _ = s.0.solve_bicgstab(&bb, &mut s.2, 2, 1e-8); }));
+                            verdict(out, "Sparse::solve_qmr (non-finite operands)", ar.clone(), bad, bad, probe(&setups, &key3, &|s| { let bb = s.1.clone(); let _ = s.0.solve_qmr(&bb, &mut s.2, 2, 1e-8); }));
+                        }
+                        let setupe = || (empty_sparse(rr, c, (b + xs) % 2), vecf(b), vecf(xs));
+                        let ar = format!("{}x{} without stored entries, b {} x {}", rr, c, b, xs);
+                        verdict(out, "Sparse::solve_cg (matrix without entries)", ar.clone(), bad, bad, probe(&setupe, &key3, &|s| { let bb = s.1.clone(); let _ = s.0.solve_cg(&bb, &mut s.2, 2, 1e-8); }));
+                        verdict(out, "Sparse::solve_bicg (matrix without entries)", ar.clone(), bad, bad, probe(&setupe, &key3, &|s| { let bb = s.1.clone(); let _ = s.0.solve_bicg(&bb, &mut s.2, 2, 1e-8, 1); }));
+                        verdict(out, "Sparse::solve_bicgstab (matrix without entries)", ar.clone(), bad, bad, probe(&setupe, &key3, &|s| { let bb = s.1.clone(); let _ = s.0.solve_bicgstab(&bb, &mut s.2, 2, 1e-8); }));
+                        verdict(out, "Sparse::solve_qmr (matrix without entries)", ar.clone(), bad, bad, probe(&setupe, &key3, &|s| { let bb = s.1.clone(); let _ = s.0.solve_qmr(&bb, &mut s.2, 2, 1e-8); }));
+                    }
                     if !bad {
                         for itol in [0usize, 3] {
                             verdict(out, "Sparse::solve_bicg (itol)", format!("{} itol {}", ar, itol), true, true, probe(&setup3, &key3, &|s| { let bb = s.1.clone(); let _ = s.0.solve_bicg(&bb, &mut s.2, 2, 1e-8, itol); }));
@@ -996,9 +1160,10 @@ fn main() {
         ("Mesh1D/Mesh2D", Box::new(mesh_entries)),
         ("Polynomial", Box::new(polynomial_entries)),
         ("sizes beyond 6", Box::new(large_size_entries)),
+        ("zero / non-finite operands", Box::new(zero_operand_entries)),
     ];
     ctx.lattice(
-        "entry-point table: 7 types x all size pairs / arguments up to 6, and binary vector / matrix operations on 14 sizes and 10 shapes up to 64",
+        "entry-point table: 7 types x all size pairs / arguments up to 6, binary vector / matrix operations on 14 sizes and 10 shapes up to 64, and the mismatched binary entries once more on all-zero / non-finite operands",
         groups.len() as u64,
         |i| groups[i as usize].0.to_string(),
         |i, acc| {
